@@ -8,12 +8,17 @@ BEATS = [{"d": [0xFF, 0xFF, 0xFF, 0xFF], "s": [1, 1, 1, 1]}, {"d": [0x12, 0x34, 
          {"d": [0xDE, 0xAD, 0xBE, 0xEF], "s": [0, 1, 0, 0]}, {"d": [0x01, 0x02, 0x04, 0x08], "s": [0, 0, 0, 0]},
          {"d": [0x80, 0x01, 0x7F, 0xFE], "s": [1, 1, 0, 0]}]
 LAYOUT = [{"a": 0, "kind": "word", "port": "o_w0"}, {"a": 4, "kind": "word", "port": "o_w1"}, {"a": 8, "kind": "upper16", "port": "o_r2"}]
+# second wrapper: a 3-word memory (not a power of two) directly followed by a word; 0x04 and 0x0c are unmapped
+ADDRS_M = [0x00, 0x10, 0x14, 0x18, 0x1C, 0x04, 0x0C]
+LAYOUT_M = [{"a": 0x00, "kind": "word", "port": "o_w0"}, {"a": 0x10, "kind": "memword", "port": ""}, {"a": 0x14, "kind": "memword", "port": ""},
+            {"a": 0x18, "kind": "memword", "port": ""}, {"a": 0x1C, "kind": "word", "port": "o_w7"}]
+WRAPPERS = [("AxiW", ADDRS, LAYOUT), ("AxiM", ADDRS_M, LAYOUT_M)]
 
 
-def traces(tier, rng):
+def traces(tier, rng, naddr=4, n=None):
     """per-clock master intents under several timing profiles"""
     out = []
-    n = 160 if tier == "quick" else 3000
+    n = n or (160 if tier == "quick" else 3000)
     length = 36 if tier == "quick" else 60
     for t in range(n):
         prof = t % 8
@@ -22,12 +27,12 @@ def traces(tier, rng):
             it = {"aw": 0, "w": 0, "b": 1, "ar": 0, "r": 1}
             if prof == 0:      # eager master: address and data in the same clock, always ready
                 if rng.random() < 0.5:
-                    it["aw"], it["w"] = rng.randint(1, 4), rng.randint(1, len(BEATS))
+                    it["aw"], it["w"] = rng.randint(1, naddr), rng.randint(1, len(BEATS))
                 if rng.random() < 0.4:
-                    it["ar"] = rng.randint(1, 4)
+                    it["ar"] = rng.randint(1, naddr)
             elif prof == 1:    # address first, data later
                 if rng.random() < 0.3:
-                    it["aw"] = rng.randint(1, 4)
+                    it["aw"] = rng.randint(1, naddr)
                 if rng.random() < 0.2:
                     it["w"] = rng.randint(1, len(BEATS))
                 it["b"] = int(rng.random() < 0.6)
@@ -35,17 +40,17 @@ def traces(tier, rng):
                 if rng.random() < 0.3:
                     it["w"] = rng.randint(1, len(BEATS))
                 if rng.random() < 0.15:
-                    it["aw"] = rng.randint(1, 4)
+                    it["aw"] = rng.randint(1, naddr)
                 it["b"] = int(rng.random() < 0.5)
             elif prof == 3:    # slow response side
                 if rng.random() < 0.4:
-                    it["aw"], it["w"] = rng.randint(1, 4), rng.randint(1, len(BEATS))
+                    it["aw"], it["w"] = rng.randint(1, naddr), rng.randint(1, len(BEATS))
                 if rng.random() < 0.4:
-                    it["ar"] = rng.randint(1, 4)
+                    it["ar"] = rng.randint(1, naddr)
                 it["b"] = int(rng.random() < 0.25)
                 it["r"] = int(rng.random() < 0.25)
             elif prof == 4:    # reads and writes to the same address interleaved
-                a = rng.randint(1, 3)
+                a = rng.randint(1, naddr - 1)
                 if rng.random() < 0.4:
                     it["aw"], it["w"] = a, rng.randint(1, len(BEATS))
                 if rng.random() < 0.5:
@@ -53,9 +58,9 @@ def traces(tier, rng):
                 it["r"] = int(rng.random() < 0.7)
             elif prof == 5:    # unmapped address mixed in
                 if rng.random() < 0.5:
-                    it["aw"], it["w"] = rng.choice([4, 4, 1, 2, 3]), rng.randint(1, len(BEATS))
+                    it["aw"], it["w"] = rng.choice([naddr, naddr] + list(range(1, naddr))), rng.randint(1, len(BEATS))
                 if rng.random() < 0.5:
-                    it["ar"] = rng.choice([4, 1, 2, 3])
+                    it["ar"] = rng.choice(list(range(1, naddr + 1)))
             else:              # everything random
                 for k, hi in (("aw", 4), ("w", len(BEATS)), ("ar", 4)):
                     if rng.random() < 0.35:
@@ -72,35 +77,42 @@ def run(tier):
     V = vlib.Verdict("C20")
     rng = random.Random(vlib.seed() + 20)
     src = open(os.path.join(vlib.VERIF, "harness", "c20_wrapper.py")).read().split('if __name__ == "__main__":')[0]
+    steps = 0
+    trs_all = []
     with vlib.Scratch() as scratch:
-        obs = vlib.compile_modules([{"name": "gc20", "source": src, "entities": ["AxiW"]}], scratch)
-        ob = vlib.read_obs(obs["AxiW"])
-        steps = 0
-        trs = []
-        if ob["outcome"] != "accepted":
-            V.violation(f"wrapper-rejected|{ob['error']['cls']}: {ob['error']['msg'][:160]}", {"clause": "WrapperAccepted", "error": ob["error"], "tb": ob.get("tb", "")})
-        elif ob["reader"] != "ok":
-            V.machinery_error(f"reader: {ob['reader']} {ob.get('reader_msg')}")
-        else:
-            trs = traces(tier, rng)
-            base = {"design": {"ast": ob["ast"], "top": "axiw"}, "addrs": ADDRS, "beats": BEATS, "layout": LAYOUT}
-            shards = [dict(base, traces=s) for s in vlib.shard(trs, vlib.NCPU)]
-            res = vlib.run_tlc_shards("MC_Axi.tla", "MC_Axi.cfg", shards, scratch, timeout=1500 if tier == "quick" else 7000, heap="3g")
-            for sh, r in zip(shards, res):
-                p = r["parsed"]
-                if r["timeout"]:
-                    V.machinery_error("MC_Axi timeout")
-                elif not p["finished"] or (p["errors"] and not p["viol"]):
-                    V.machinery_error("MC_Axi: " + " / ".join(p["errors"][:3]) + r["out"][-600:])
-                steps += p["stat"].get("steps", [0])[0]
-                for tid, pos, err in p["viol"]:
-                    tr = sh["traces"][tid - 1][:pos]
-                    V.violation(f"{err}|after {pos} clocks, intents {json.dumps(tr[-6:])}", {"clause": err, "intents": tr, "vhdl": ob["vhdl"]})
+        obs = vlib.compile_modules([{"name": "gc20", "source": src, "entities": [w[0] for w in WRAPPERS]}], scratch)
+        shards, meta = [], []
+        for wname, addrs, layout in WRAPPERS:
+            ob = vlib.read_obs(obs[wname])
+            if ob["outcome"] != "accepted":
+                V.violation(f"wrapper-rejected:{wname}|{ob['error']['cls']}: {ob['error']['msg'][:160]}", {"clause": "WrapperAccepted", "error": ob["error"], "tb": ob.get("tb", "")})
+                continue
+            if ob["reader"] != "ok":
+                V.machinery_error(f"reader: {ob['reader']} {ob.get('reader_msg')}")
+                continue
+            trs = traces(tier, rng, naddr=len(addrs), n=(90 if tier == "quick" else 1500))
+            trs_all += trs
+            base = {"design": {"ast": ob["ast"], "top": wname.lower()}, "addrs": addrs, "beats": BEATS, "layout": layout}
+            for sh in vlib.shard(trs, vlib.NCPU // 2):
+                shards.append(dict(base, traces=sh))
+                meta.append((wname, ob["vhdl"]))
+        res = vlib.run_tlc_shards("MC_Axi.tla", "MC_Axi.cfg", shards, scratch, timeout=1500 if tier == "quick" else 7000, heap="3g") if shards else []
+        for sh, (wname, vhdl), r in zip(shards, meta, res):
+            p = r["parsed"]
+            if r["timeout"]:
+                V.machinery_error("MC_Axi timeout")
+            elif not p["finished"] or (p["errors"] and not p["viol"]):
+                V.machinery_error("MC_Axi: " + " / ".join(p["errors"][:3]) + r["out"][-600:])
+            steps += p["stat"].get("steps", [0])[0]
+            for tid, pos, err in p["viol"]:
+                tr = sh["traces"][tid - 1][:pos]
+                V.violation(f"{err}:{wname}|after {pos} clocks, intents {json.dumps(tr[-6:])}", {"clause": err, "wrapper": wname, "intents": tr, "vhdl": vhdl})
+    trs = trs_all
     cov = {"states": steps, "transitions": steps, "traces_validated_against_impl": len(trs), "evaluations": steps,
            "distinct_nontrivial": len(trs), "samples": [t[:6] for t in trs[:2]],
-           "layout": LAYOUT, "addresses": ADDRS, "beats": len(BEATS), "exhaustive": False,
-           "rule": "one register map (two MemWords, one register with a stored upper field and a hardware-driven lower field, one unmapped "
-                   "address) behind std.axi.axi4_light; seeded random master intent traces under 8 timing profiles (same-clock address+data, "
+           "layouts": {w[0]: w[2] for w in WRAPPERS}, "addresses": {w[0]: w[1] for w in WRAPPERS}, "beats": len(BEATS), "exhaustive": False,
+           "rule": "two register maps behind std.axi.axi4_light (A: two MemWords, one register with a stored upper field and a hardware-driven "
+                   "lower field, one unmapped address; B: a MemWord, a 3-word Memory directly followed by a MemWord, unmapped gaps); seeded random master intent traces under 8 timing profiles (same-clock address+data, "
                    "address first, data first, slow response side, same-address read/write interleaving, unmapped addresses, all random); the "
                    "master holds every valid until ready; the emitted VHDL is run against the channel monitor of AxiLite.tla at every clock"}
     rc = V.finish()
